@@ -67,6 +67,14 @@ func (x *dargs) fl(v ...float64) []float64 {
 	return out
 }
 
+// raw registers a float slice argument that is not scaled with the embedding
+func (x *dargs) raw(v ...float64) []float64 {
+	out := append([]float64(nil), v...)
+	x.floats = append(x.floats, out)
+	x.floatsBefore = append(x.floatsBefore, cloneF(out))
+	return out
+}
+
 func marker(x *dargs) *canvas.Path {
 	m := &canvas.Path{}
 	m.MoveTo(0, 0)
@@ -208,6 +216,13 @@ var dops = []dop{
 	{"Dash", "zeros-negoffset", func(p *canvas.Path, x *dargs) { sink = p.Dash(-1*x.s, x.fl(2, 0, 3, 1)...) }},
 	{"Dash", "repeated", func(p *canvas.Path, x *dargs) { sink = p.Dash(0, x.fl(1, 1, 1, 1)...) }},
 	{"Dash", "none", func(p *canvas.Path, x *dargs) { sink = p.Dash(0) }},
+	// finite but adversarial offsets with a decimal pattern: rounding can make the reduced offset equal the period
+	{"Dash", "offset-rounding-residue", func(p *canvas.Path, x *dargs) { sink = p.Dash(0.3-(0.1+0.2), x.raw(2.1, 2.3, 1, 1.2)...) }},
+	{"Dash", "offset-minus-1e-17", func(p *canvas.Path, x *dargs) { sink = p.Dash(-1e-17, x.raw(0.7, 0.1, 0.2)...) }},
+	{"Dash", "offset-minus-1e-300", func(p *canvas.Path, x *dargs) { sink = p.Dash(-1e-300, x.raw(2.1, 2.3, 1, 1.2)...) }},
+	{"Dash", "offset-one-decimal-period", func(p *canvas.Path, x *dargs) { sink = p.Dash(6.6, x.raw(2.1, 2.3, 1, 1.2)...) }},
+	{"Dash", "offset-1e300", func(p *canvas.Path, x *dargs) { sink = p.Dash(1e300, x.raw(0.7, 0.3)...) }},
+	{"Dash", "offset-minus-1e300", func(p *canvas.Path, x *dargs) { sink = p.Dash(-1e300, x.raw(2.1, 2.3, 1, 1.2)...) }},
 	{"Offset", "out", func(p *canvas.Path, x *dargs) { sink = p.Offset(0.25*x.s, 0.01*x.s) }},
 	{"Offset", "in", func(p *canvas.Path, x *dargs) { sink = p.Offset(-0.25*x.s, 0.01*x.s) }},
 	{"Stroke", "butt-miter", func(p *canvas.Path, x *dargs) { sink = p.Stroke(0.5*x.s, canvas.ButtCap, canvas.MiterJoin, 0.01*x.s) }},
@@ -272,6 +287,7 @@ type opOutcome struct {
 	kind        string // "" ok | "panic" | "timeout"
 	msg         any
 	recvChanged bool
+	recvDetail  string
 	argChanged  string // "" or description
 }
 
@@ -291,7 +307,12 @@ func runOp(o *dop, data []float64, e latgeo.Emb) (out opOutcome) {
 	if out.kind != "" {
 		return
 	}
-	out.recvChanged = !sameBits(p.Data(), data)
+	if out.recvChanged = !sameBits(p.Data(), data); out.recvChanged {
+		out.recvDetail = fmt.Sprintf("%v -> %v", canvas.NewPathFromData(data), p)
+		if len(out.recvDetail) > 300 {
+			out.recvDetail = out.recvDetail[:300]
+		}
+	}
 	for i, f := range x.floats {
 		if !sameBits(f, x.floatsBefore[i]) {
 			out.argChanged = fmt.Sprintf("float slice argument %d: %v -> %v", i, x.floatsBefore[i], f)
@@ -371,10 +392,14 @@ func Derive(data []float64, e latgeo.Emb, f Feat, newPath map[string]bool, info 
 			continue
 		}
 		if o.recvChanged {
-			if newPath[name] {
-				ms = append(ms, core.Mismatch{Signature: "mutates-receiver-" + name, Detail: full + " is documented as returning a new path but changes the receiver's Data()"})
+			if !newPath["!"+name] {
+				what := " is not documented as working in place"
+				if newPath[name] {
+					what = " is documented as returning a new path"
+				}
+				ms = append(ms, core.Mismatch{Signature: "mutates-receiver-" + name, Detail: full + what + " but changes the receiver's Data(): " + o.recvDetail})
 			} else if info != nil {
-				info("receiver-changed-by-" + name)
+				info("receiver-changed-by-" + name + "(documented in-place)")
 			}
 		}
 		if o.argChanged != "" {
